@@ -45,7 +45,7 @@ fn violation(prop: &str, sig: &str, what: &str, ty: &str, payload: &dv_core::pv:
     }
     let aux = if src == Src::Ov { "0" } else { "1" };
     eprintln!("FUZZ-VIOLATION property={prop} signature={sig}\n  type={ty}\n  payload={}\n  script={}\n  {what}", payload.show(), script.show());
-    eprintln!("FUZZ-CASE {}", serde_json::json!({"property": prop, "signature": sig, "what": what, "case": {"type": ty, "payload": payload.encode(), "payload_shown": payload.show(), "script": script.show(), "aux": aux}}));
+    eprintln!("FUZZ-CASE {}", serde_json::json!({"property": prop, "signature": sig, "what": what, "case": {"type": ty, "payload": payload.encode(), "payload_shown": payload.show(), "script": script.show(), "aux": aux, "program_seed": dv_generated::PROGRAM_SEED}}));
     std::process::abort();
 }
 
